@@ -59,6 +59,8 @@ fn oracles() -> Vec<(&'static str, Enumerate, Check)> {
         ("c03_not", o_solver::enum_not, o_solver::check_not),
         ("c02_cut", o_solver::enum_cut, o_solver::check_cut),
         ("c02_walk", o_solver::enum_walk, o_solver::check_walk),
+        ("c04_format", o_solver::enum_format, o_solver::check_format),
+        ("c04_prog", o_solver::enum_prog_output, o_solver::check_program),
         ("c05_prog", o_solver::enum_prog_reask, o_solver::check_program),
         ("c02_prog", o_solver::enum_prog_cut, o_solver::check_program),
         ("c03_prog", o_solver::enum_prog_not, o_solver::check_program),
